@@ -13,8 +13,8 @@ pub const START_DOCS: &[&str] = &[
     "<r><a id=\"1\">x<b/>y</a><c k=\"v\"><!--m--><d/></c><?p q?>t</r>",
     "<r id=\"r\"><a id=\"1\" k=\"x\">t</a><b id=\"2\" k=\"y\"><c k=\"z\"/></b></r>",
     "<!DOCTYPE r [<!ENTITY e \"ee\"><!ATTLIST a d CDATA \"dv\">]><r>t1<a n=\"1\">&e;<![CDATA[cd]]></a><b><c><d>deep</d></c></b></r>",
-    "<r xmlns=\"urn:d\" xmlns:p=\"urn:1\"><p:a p:k=\"1\" k=\"2\">\u{e9}\u{1F600}</p:a><b>one</b>two<s xmlns:p=\"urn:2\" xmlns=\"\"><p:c/><d>three</d></s></r>",
-    "<?x y?><r><!--c1--><a>a-b-c</a><b>]]</b><c>1</c></r><!--end-->",
+    "<r xmlns=\"urn:d\" xmlns:p=\"urn:1\"><g><p:a p:k=\"1\" k=\"2\">\u{e9}\u{1F600}</p:a><b>one</b></g>two<s xmlns:p=\"urn:2\" xmlns=\"\"><p:c/><d>three</d></s></r>",
+    "<?x y?><!DOCTYPE r><r><!--c1--><a>a-b-c</a><b>]]</b><c>1</c></r><!--end-->",
     "<r><!--a-b-c--><![CDATA[]]x>]]><t>]]x></t><u q=\"x'\">-</u><!---x--></r>",
 ];
 
@@ -63,7 +63,18 @@ pub fn gen_history(g: &mut Genes, cfg: &HistCfg) -> Json {
             let d = g.raw();
             let rp = g.raw();
             let newest = json!([65535, "recent"]);
-            match g.weighted(&[3, 6, 2, 1, 2]) {
+            match g.weighted(&[3, 6, 2, 1, 2, 1]) {
+                5 => {
+                    // take something out of a document and put a document-level node (back) in
+                    let docspec = json!([rp, "document"]);
+                    ops.push(json!({"op": "remove", "p": docspec.clone(), "c": [g.raw(), "child-of", docspec.clone()]}));
+                    let back = json!([g.raw(), "doc-level"]);
+                    if g.chance(1, 2) {
+                        ops.push(json!({"op": "append", "p": docspec, "c": back}));
+                    } else {
+                        ops.push(json!({"op": "insert_before", "p": docspec.clone(), "c": back, "r": [g.raw(), "child-of", docspec]}));
+                    }
+                }
                 4 => {
                     // a burst of two or three text nodes appended to one parent (sequences that only arise by adjacency)
                     let tk = ["element", "attr", "detached-element"][g.weighted(&[5, 2, 2])];
